@@ -92,6 +92,34 @@ func newWorld(c *props.Ctx) *world {
 	for i := 0; i < w.wstruct.NumFields(); i++ {
 		w.field[w.wstruct.Field(i).Name()] = w.wstruct.Field(i)
 	}
+	// roles are resolved by type where the type is unique among the fields (a rename of the field
+	// then changes nothing); the role name is only the fallback
+	byType := func(role string, match func(t types.Type) bool) {
+		var hits []*types.Var
+		for i := 0; i < w.wstruct.NumFields(); i++ {
+			if match(w.wstruct.Field(i).Type()) {
+				hits = append(hits, w.wstruct.Field(i))
+			}
+		}
+		if len(hits) == 1 {
+			w.field[role] = hits[0]
+		}
+	}
+	sliceOf := func(name string) func(types.Type) bool {
+		return func(t types.Type) bool {
+			sl, ok := t.Underlying().(*types.Slice)
+			if !ok {
+				return false
+			}
+			n := ssau.NamedOf(sl.Elem())
+			return n != nil && n.Obj().Pkg() == w.tpkg && n.Obj().Name() == name
+		}
+	}
+	byType("buf", func(t types.Type) bool { return ssau.IsNamed(t, "bytes", "Buffer") })
+	byType("bitW", func(t types.Type) bool { return ssau.IsNamed(t, bitlibPath, "Writer") })
+	byType("bytesWritten", func(t types.Type) bool { return isIntType(t) })
+	byType("bufferViews", sliceOf("BufferView"))
+	byType("accessors", sliceOf("Accessor"))
 	for _, need := range []string{"buf", "bitW", "bytesWritten", "bufferViews", "accessors", "extensionsUsed"} {
 		if w.field[need] == nil {
 			c.R.Failf("anchor field %s.Writer.%s not found", gltfRel, need)
@@ -526,6 +554,7 @@ func (w *world) execConfig() Config {
 		Inline:     w.inlineIn,
 		Effects:    w.effects,
 		Pure:       w.pure,
+		GlobalMap:  w.globalMap,
 		Balanced:   func(fn *ssa.Function) bool { return w.scan[fn] != nil && w.reachesSync(fn) },
 	}
 }
@@ -646,4 +675,76 @@ func (w *world) summarise(fn *ssa.Function) *summary {
 		}
 	}
 	return sm
+}
+
+// globalMap reads m[key] from a package-level map that the package initialiser fills with
+// constant keys and values and that nothing else in the package updates. key == nil asks
+// whether g is such a table (non-nil answer = yes).
+func (w *world) globalMap(g *ssa.Global, key AV) AV {
+	if g.Pkg != w.pkg {
+		return nil
+	}
+	init := w.pkg.Func("init")
+	if init == nil {
+		return nil
+	}
+	table := map[string]AV{}
+	ok := true
+	check := func(fn *ssa.Function, isInit bool) {
+		ssau.AllInstrs(fn, func(in ssa.Instruction) {
+			mu, isMU := in.(*ssa.MapUpdate)
+			if !isMU {
+				return
+			}
+			u, isU := mu.Map.(*ssa.UnOp)
+			var src ssa.Value = mu.Map
+			if isU {
+				src = u.X
+			}
+			// the map stored into g: either updated through a load of g, or built then stored
+			hits := src == ssa.Value(g)
+			if mm, isMM := mu.Map.(*ssa.MakeMap); isMM {
+				for _, r := range ssau.Refs(mm) {
+					if st, isSt := r.(*ssa.Store); isSt && st.Addr == ssa.Value(g) {
+						hits = true
+					}
+				}
+			}
+			if !hits {
+				return
+			}
+			if !isInit {
+				ok = false
+				return
+			}
+			kc, isKC := mu.Key.(*ssa.Const)
+			vc, isVC := stripChange(mu.Value).(*ssa.Const)
+			if !isKC || !isVC || kc.Value == nil || vc.Value == nil {
+				ok = false
+				return
+			}
+			var v AV = Konst{V: vc.Value, T: vc.Type()}
+			if i, isI := ssau.ConstInt(vc); isI && isIntType(vc.Type()) {
+				v = Num{pconst(i)}
+			}
+			table[kc.Value.ExactString()] = v
+		})
+	}
+	check(init, true)
+	for _, fn := range w.all {
+		if fn != init {
+			check(fn, false)
+		}
+	}
+	if !ok || len(table) == 0 {
+		return nil
+	}
+	if key == nil {
+		return Konst{}
+	}
+	k, isK := key.(Konst)
+	if !isK || k.V == nil {
+		return nil
+	}
+	return table[k.V.ExactString()]
 }
